@@ -85,6 +85,8 @@ def execute(case, ctx):
             if a is None or "exc" in a:
                 return Result("fail", classes, True, dict(run.describe(), what="gf %s %d %d threw: %s" % (src, i, j, a and a["exc"])), "exc:gf")
             vals[src] = [cx(v) for v in a["n"]]
+            if src == "gfc" and not a.get("listed"):
+                return Result("fail", classes, True, dict(run.describe(), what="after prepareAll()/computeAll() without an index set the container of all components does not hold G_%d%d" % (i, j)), "container-missing")
         anynz = False
         for q, n in enumerate(ns):
             z = 1j * (2 * n + 1) * math.pi / beta
